@@ -100,6 +100,16 @@ async fn handler_impl(
     if let Some(r) = foreign(&rqctx, uid) {
         return Ok(r);
     }
+    // Variant asked for by the client: the handler has taken what it needs out
+    // of its RequestContext and lets go of it BEFORE it waits (so the handler
+    // itself keeps no Arc<DropshotState> alive); otherwise rqctx lives until
+    // the handler returns.
+    let _held_rqctx = if hdr_u64(&rqctx, "x-vmon-drop-rqctx") == Some(1) {
+        drop(rqctx);
+        None
+    } else {
+        Some(rqctx)
+    };
     ctx.log.push("H_ENTER", uid, ctx.instance as i64, op);
     let mut g = Guard { log: ctx.log.clone(), uid, done: false };
     match op {
@@ -383,6 +393,15 @@ pub fn is_resource_err(e: &std::io::Error) -> bool {
             | Some(libc::EAGAIN)
             | Some(libc::EADDRINUSE)
     ) || e.kind() == std::io::ErrorKind::TimedOut
+}
+
+/// mark a request so that its handler drops its RequestContext before waiting
+pub fn drop_rqctx(r: Req, yes: bool) -> Req {
+    if yes {
+        r.header("x-vmon-drop-rqctx", "1")
+    } else {
+        r
+    }
 }
 
 pub fn mode_tag(m: dropshot::HandlerTaskMode) -> &'static str {
